@@ -35,6 +35,13 @@ func (h *initErrorHandler) ServeHTTP(writer http.ResponseWriter, request *http.R
 	if err != nil {
 		log.WithError(err).Warn("Failed to read error body")
 	}
+	if len(errorBody) > interop.MaxPayloadSize {
+		// The report is kept and replayed as the response of the first invocation, where an
+		// oversized payload cannot be sent: refuse it like any other oversized response.
+		log.Warnf("Init error payload size (%d bytes) exceeded maximum allowed payload size (%d bytes)", len(errorBody), interop.MaxPayloadSize)
+		rendering.RenderRequestEntityTooLarge(writer, request)
+		return
+	}
 	headers := interop.InvokeResponseHeaders{ContentType: determineJSONContentType(errorBody)}
 	response := &interop.ErrorInvokeResponse{Headers: headers, FunctionError: fnError, Payload: errorBody}
 
